@@ -261,6 +261,11 @@ impl Honest {
     }
 
     pub fn build(&self) -> World {
+        self.build_shifted(std::time::Duration::ZERO)
+    }
+
+    /// Same world with every instant translated by `shift`.
+    pub fn build_shifted(&self, shift: std::time::Duration) -> World {
         let mut srv = ServerSpec::default();
         srv.tcfg = self.srv_t.clone();
         srv.policy = self.policy;
@@ -280,6 +285,9 @@ impl Honest {
             specs.push(s);
         }
         let mut w = World::new(self.seed, self.lane, specs, self.net.clone(), self.drv.clone());
+        if !shift.is_zero() {
+            w.shift_epoch(shift);
+        }
         w.ops = self.ops.clone();
         for i in 0..self.cli_t.len() {
             w.connect(i + 1, 0, self.cli_t[i].clone(), self.cli_app[i].clone()).expect("connect");
